@@ -299,6 +299,85 @@ fn run<T: Fl>(job: &Job, out: &mut JobOut) {
     }
 }
 
+/// Lean variant for big inputs: long uneven axes (the segment lookup leaves its guess-and-verify
+/// shortcut) and data with very many lanes (size-gated code paths), few lanes / few queries, all
+/// entry points incl. the dirty-buffer `*_into` forms.
+fn run_big<T: Fl>(name: &str, x64: &[f64], y64: &[f64], nl: usize, dense_x: bool, out: &mut JobOut) {
+    nimc::subj::set_axis_reversed_in_memory(false);
+    let (Some(xt), Some(yt)) = (vec_exact::<T>(x64), vec_exact::<T>(y64)) else {
+        return;
+    };
+    let (nx, ny) = (xt.len(), yt.len());
+    let val = |i: usize, j: usize, k: usize| -> f64 { GENERIC[(3 * i + 5 * j + 7 * k) % 11] * (1 + (i + 2 * j + k) % 3) as f64 };
+    let data = Array3::from_shape_fn((nx, ny, nl), |(i, j, k)| T::from_f64_exact(val(i, j, k)).unwrap());
+    let key = format!("{}:big:{name}", T::NAME);
+    let case = |extra: Vec<(&str, Json)>| {
+        let mut v = vec![("type", Json::str(T::NAME)), ("grid", Json::str(name)), ("nx", Json::Int(nx as i128)), ("ny", Json::Int(ny as i128)), ("lanes", Json::Int(nl as i128))];
+        v.extend(extra);
+        Json::obj(v)
+    };
+    let _ = dense_x;
+    let few = |t: &[T]| -> Vec<T> { vec![t[0], t[0] + (t[1] - t[0]) * T::from_f64_lossy(0.25), t[t.len() - 2] + (t[t.len() - 1] - t[t.len() - 2]) * T::from_f64_lossy(0.5), t[t.len() - 1]] };
+    let qx1 = if nx > 3 { queries(&xt) } else { few(&xt) };
+    let qy1 = if ny > 3 { queries(&yt) } else { few(&yt) };
+    let (mut qx, mut qy) = (vec![], vec![]);
+    for &a in &qx1 {
+        for &b in &qy1 {
+            qx.push(a);
+            qy.push(b);
+        }
+    }
+    let mut refs: Vec<(DD, f64)> = Vec::with_capacity(qx.len() * nl);
+    for (&a, &b) in qx.iter().zip(&qy) {
+        let (i, j) = (bracket_scan(&xt, a), bracket_scan(&yt, b));
+        for k in 0..nl {
+            let (z11, z12, z21, z22) = (val(i, j, k), val(i, j + 1, k), val(i + 1, j, k), val(i + 1, j + 1, k));
+            let (exact, _) = bilinear_ref(x64[i], x64[i + 1], y64[j], y64[j + 1], z11, z12, z21, z22, a.to_f64(), b.to_f64());
+            refs.push((exact, z11.abs().max(z12.abs()).max(z21.abs()).max(z22.abs())));
+        }
+    }
+    out.nontrivial += refs.len() as u64;
+    let ip = match catch(|| build_bilinear::<T, _>(Some(&xt[..]), Some(&yt[..]), data.clone(), false)) {
+        Ok(Ok(i)) => i,
+        other => {
+            out.violate(format!("{key}:build"), format!("valid input not accepted by build(): {:?}", other.map(|r| r.map(|_| ()))), case(vec![]));
+            return;
+        }
+    };
+    out.states += 1;
+    for entry in ENTRIES_2D {
+        let res = match eval_entry2(&ip, &qx, &qy, entry) {
+            Ok(r) => r,
+            Err(f) => {
+                out.violate(format!("{key}:{entry}"), format!("in-range batch not answered: {}", f.text()), case(vec![("entry", Json::str(entry))]));
+                continue;
+            }
+        };
+        out.transitions += 1;
+        out.outcome(format!("{entry}:Ok"));
+        'q: for qi in 0..qx.len() {
+            for k in 0..nl {
+                let (exact, m) = refs[qi * nl + k];
+                let got = res[[qi, k]].to_f64();
+                let tol = 24.0 * T::EPS * m;
+                let err = err_dd(got, exact);
+                out.evals += 1;
+                if !(err <= tol) {
+                    out.violate(
+                        format!("{key}:{entry}"),
+                        format!("Bilinear at ({:e}, {:e}), lane {k}, returned {got:e}, the bilinear blend of the cell gives {:e} (err {err:e}, tol {tol:e})", qx[qi].to_f64(), qy[qi].to_f64(), exact.to_f64()),
+                        case(vec![("entry", Json::str(entry)), ("qx", Json::Num(qx[qi].to_f64())), ("qy", Json::Num(qy[qi].to_f64())), ("lane", Json::Int(k as i128))]),
+                    );
+                    break 'q;
+                }
+            }
+        }
+    }
+    if out.sample.is_none() {
+        out.sample = Some(case(vec![("queries", Json::Int(qx.len() as i128))]));
+    }
+}
+
 fn body(ctx: &Ctx) -> (Summary, Meta) {
     let mut jobs = vec![];
     for f32 in [false, true] {
@@ -327,7 +406,30 @@ fn body(ctx: &Ctx) -> (Summary, Meta) {
         }
     }
     let njobs = jobs.len();
-    let sum = run_jobs(ctx, "bilinear-exact", &jobs, |j| j.key(), |j| {
+    // big inputs: (name, x, y, lanes, dense queries along x)
+    let mut big: Vec<(String, Vec<f64>, Vec<f64>, usize, bool, bool)> = vec![];
+    let lens: &[usize] = if ctx.quick() { &[70, 130, 400] } else { &[66, 70, 130, 257, 400, 1000, 3000] };
+    for &n in lens {
+        let sq: Vec<f64> = (0..n).map(|i| (i * i) as f64).collect();
+        let cu: Vec<f64> = (0..n).map(|i| -(((n - i) * (n - i)) as f64)).collect();
+        let geo: Vec<f64> = (0..n.min(48)).map(|i| 2.0f64.powi(i as i32)).collect();
+        let small = vec![-1.0, 0.5, 2.0];
+        for f32 in [false, true] {
+            if f32 && n * n > (1 << 24) {
+                continue;
+            }
+            big.push((format!("squares{n}x3"), sq.clone(), small.clone(), 3, true, f32));
+            big.push((format!("3xsquares{n}"), small.clone(), sq.clone(), 3, false, f32));
+            big.push((format!("negsquares{n}x3"), cu.clone(), small.clone(), 3, true, f32));
+            big.push((format!("geometric{}x3", geo.len()), geo.clone(), small.clone(), 2, true, f32));
+        }
+    }
+    for lanes in [32767usize, 32768, 70000] {
+        for f32 in [false, true] {
+            big.push((format!("3x2x{lanes}lanes"), vec![0.0, 1.0, 3.0], vec![-1.0, 1.0], lanes, false, f32));
+        }
+    }
+    let mut sum = run_jobs(ctx, "bilinear-exact", &jobs, |j| j.key(), |j| {
         let mut out = JobOut::default();
         if j.f32 {
             run::<f32>(j, &mut out);
@@ -336,8 +438,17 @@ fn body(ctx: &Ctx) -> (Summary, Meta) {
         }
         out
     });
+    sum.merge(run_jobs(ctx, "big-inputs", &big, |b| format!("{}:big:{}", if b.5 { "f32" } else { "f64" }, b.0), |b| {
+        let mut out = JobOut::default();
+        if b.5 {
+            run_big::<f32>(&b.0, &b.1, &b.2, b.3, b.4, &mut out);
+        } else {
+            run_big::<f64>(&b.0, &b.1, &b.2, b.3, b.4, &mut out);
+        }
+        out
+    }));
     let meta = Meta {
-        rule: "every ordered pair (x-axis, y-axis) of the 2-D axis alphabet (so non-square grids occur in both orientations) + default index axes; data lanes: unit impulse at every node, 1, x, y, xy, generic table, generic*2^20, 24-bit mantissas, stored in 5 memory layouts; queries = product of the per-axis alphabets {knot, both float neighbours, quarter points}; 4 entry points; oracle = exact rational bilinear form of the cell found by two linear scans. Non-trivial = query strictly inside a cell whose corner values are not all equal.".into(),
+        rule: "every ordered pair (x-axis, y-axis) of the 2-D axis alphabet (so non-square grids occur in both orientations) + default index axes; data lanes: unit impulse at every node, 1, x, y, xy, generic table, generic*2^20, 24-bit mantissas, stored in 5 memory layouts; queries = product of the per-axis alphabets {knot, both float neighbours, quarter points}; 7 entry points (allocating with static rank 1/2/3 and dynamic queries, element-wise, and the two *_into forms on buffers that hold NaN beforehand); oracle = exact rational bilinear form of the cell found by two linear scans. Phase big-inputs: long uneven axes (squares, negated squares, powers of two; 66..3000 nodes) against a 3-node axis in both orientations with every knot / neighbour / quarter point of the long axis queried, and 3x2 grids with 32767 / 32768 / 70000 lanes. Non-trivial = query strictly inside a cell whose corner values are not all equal.".into(),
         bounds: format!("{njobs} (type, grid) jobs; tier {}", ctx.tier.name()),
         assumptions: vec!["tolerance 24 eps max|z_corner| (three nested linear steps)".into()],
         extra: vec![],
